@@ -393,7 +393,9 @@ def check_c08(ctx):
     preds = ['c08noerr', 'c08err', 'c08contok', 'c08contbisim', 'c08contcut']
     modes = ['000', '010', '100', '110']
     if ctx.tier == 'thorough':
-        batches = [Batch(G_N3_ALL_ANY, ALL_LAYOUTS, modes, [(sd['rot'] + i) % 12 for i in range(3)], failsets=('none', '1'),
+        batches = [Batch(G_N3_ALL_ANY, ALL_LAYOUTS, modes, [sd['rot']], failsets=('none', '1'),
+                         reps=1, names=sd['names'], spell=sd['spell']),
+                   Batch(G_N3_ALL_ANY, ['sibling', 'subdir', 'remote'], modes, [(sd['rot'] + 1) % 12, (sd['rot'] + 2) % 12], failsets=('none',),
                          reps=1, names=sd['names'], spell=sd['spell'], allfaults=True),
                    Batch(G_N3_D3_WF, ['sibling+subdir', 'parent+otherdir', 'remote+sibling'], modes, [sd['rot']],
                          failsets=('none', '1', '2', '1+2'), reps=1),
